@@ -313,8 +313,50 @@ def run(run, thorough):
     by_id = {id(s): m for s, m in zip(scns, metas)}
     for scn, res in out:
         judge(run, scn, by_id[id(scn)], res)
+    private_at_every_instant(run, [(scn, res) for scn, res in out][:60 if not thorough else 600])
     if out:
         run.sample({'level': 'state', 'argv': out[0][0]['steps'][0]['argv'], 'mounts': out[0][0]['mounts'], 'env': out[0][0]['env']})
+
+
+def new_dirs_not_private(before, snap):
+    bad = []
+    for p, v in snap.items():
+        if p not in before and v[0] == 'd' and (v[1] & 0o777) != 0o700:
+            comps = p.split('/')
+            if any(c == 'Trash' or c == '.Trash' or c.startswith('.Trash-') for c in comps) or comps[-1] in ('mytrash',):
+                bad.append((p, oct(v[1])))
+    return bad
+
+
+def private_at_every_instant(run, outs, section='private-at-creation'):
+    """the directories trash-put creates are private from the moment they exist: the run is killed right after every directory creation
+    (and a chmod it may issue afterwards is refused): no trash directory with other permission bits than 0700 is ever left behind"""
+    import copy
+    scns, infos = [], []
+    for scn, res in outs:
+        muts = res['steps'][0].get('muts') or []
+        for j, m in enumerate(muts):
+            if m == 'mkdir':
+                s = copy.deepcopy(scn)
+                s['steps'][0]['plan'] = {'crash': j + 2}
+                scns.append(s)
+                infos.append(('killed after mkdir', j + 1))
+            elif m == 'chmod':
+                s = copy.deepcopy(scn)
+                s['steps'][0]['plan'] = {'sysfault': [j + 1, 1]}
+                scns.append(s)
+                infos.append(('chmod refused', j + 1))
+        if len(scns) > 400:
+            break
+    res = sandbox.execute_many(scns) if scns else []
+    for s, inf, r in zip(scns, infos, res):
+        if not r.get('steps'):
+            continue
+        run.count(section)
+        bad = new_dirs_not_private(r['before'], r['steps'][0]['after'])
+        if bad:
+            run.fail('oracle', 'a trash directory created by trash-put exists with permission bits other than 0700 (%s at system call %d)' % inf,
+                     {'scenario': s, 'directories': bad[:6]}, key='not-private-at-creation', section=section)
 
 
 def replay(run, payload):
@@ -326,6 +368,13 @@ def replay(run, payload):
     o = res['steps'][0]
     print('trash-put', scn['steps'][0]['argv'], 'exit', o['exit'], esc(o['stderr'][:600]))
     meta = case.get('meta')
+    pl = scn['steps'][0].get('plan') or {}
+    if not meta and (pl.get('crash') or pl.get('sysfault')):
+        bad = new_dirs_not_private(res['before'], o['after'])
+        if bad:
+            run.fail('oracle', 'a trash directory created by trash-put exists with permission bits other than 0700', {'scenario': scn, 'directories': bad[:6]},
+                     key='not-private-at-creation', section='replay')
+        return
     if meta:
         meta = dict(meta, mounts=['/'] + list(scn['mounts']))
         judge(run, scn, meta, res)
